@@ -697,6 +697,7 @@ func blockContainsAccounts(block *old_faithful_grpc.BlockResponse, accounts []st
 		meta, err := solanatxmetaparsers.ParseTransactionStatusMetaContainer(tx.Meta)
 		if err != nil {
 			klog.Errorf("Failed to parse transaction meta: %v", err)
+			continue // no metadata, hence no loaded accounts to look at (meta is nil here)
 		}
 
 		loadedAccounts := meta.GetLoadedAccounts()
